@@ -209,6 +209,12 @@ func (e *Executor) RunTask(ctx context.Context, call *Call) error {
 				}
 				return nil
 			}
+		} else {
+			// --force runs the task whatever its fingerprint says, but the run counts
+			// like any other: let the sources checker record the fingerprint (its
+			// verdict and errors do not matter, the status commands are not run), so
+			// that the next run without --force finds the task up to date.
+			e.recordFingerprint(t)
 		}
 
 		for _, p := range t.Prompt {
